@@ -801,6 +801,30 @@ func (e *evg) mutate(forms []*nd) string {
 	return "none"
 }
 
+// A colon-terminated symbol (`L1:`) is a loop label only right after for/break/continue.
+// Anywhere else Go evaluates it to itself (LexicalLookupSymbol: colonTail), which is outside
+// the modelled core language (model and reference treat it as an unbound symbol). A tree
+// mutation that moves a label out of its position is neutralised: the stray label becomes 0.
+func neutraliseStrayLabels(n *nd) int {
+	c := 0
+	labelAt := -1
+	if len(n.kids) > 1 && n.kids[0].leaf() && !n.sq {
+		switch n.kids[0].atom {
+		case "for", "break", "continue":
+			labelAt = 1
+		}
+	}
+	for i, k := range n.kids {
+		if k.leaf() && strings.HasSuffix(k.atom, ":") && i != labelAt {
+			k.atom = "0"
+			c++
+			continue
+		}
+		c += neutraliseStrayLabels(k)
+	}
+	return c
+}
+
 func evalGen(g *Gen) {
 	// fixed ops: the shapes named in DESIGN §7 C02/C09 and earlier findings
 	for _, t := range evalFixed {
@@ -824,7 +848,19 @@ func evalGen(g *Gen) {
 		for t := 0; t < ntext; t++ {
 			forms := e.program(defined)
 			if i >= nWT && t == ntext-1 {
-				g.Count("mal " + e.mutate(forms))
+				what := "none"
+				for try := 0; try < 12 && what == "none"; try++ { // a mutation kind that does not fit the chosen node changes nothing: choose again
+					what = e.mutate(forms)
+				}
+				g.Count("mal " + what)
+				for _, f := range forms {
+					if f.leaf() && strings.HasSuffix(f.atom, ":") {
+						f.atom = "0"
+						g.Count("mal stray label neutralised")
+					} else if neutraliseStrayLabels(f) > 0 {
+						g.Count("mal stray label neutralised")
+					}
+				}
 			}
 			nodes, depth := 0, 0
 			for _, f := range forms {
